@@ -37,6 +37,8 @@ func cmdVerify(args []string) {
 	dumpSMT := fs.Bool("smt", false, "print background")
 	inline := fs.Int("inline", 2, "inline depth")
 	showAll := fs.Bool("all", false, "show discharged too")
+	cost := fs.Bool("cost", false, "cost mode (C20 clauses only)")
+	tag := fs.String("tag", "", "check only the clauses carrying this tag")
 	fs.Parse(args)
 	e, err := loadEngine(*repo)
 	if err != nil {
@@ -46,6 +48,12 @@ func cmdVerify(args []string) {
 	e.computeModSets()
 	e.fixPureModsets()
 	opts := &VCOpts{Safety: true, InlineDepth: *inline}
+	if *cost {
+		opts = &VCOpts{InlineDepth: 1, Cost: true, CheckTags: map[string]bool{"C20": true}}
+	}
+	if *tag != "" {
+		opts = &VCOpts{InlineDepth: 1, CheckTags: map[string]bool{*tag: true}}
+	}
 	var rs []*FnResult
 	for _, k := range fs.Args() {
 		var fns []*ssa.Function
@@ -109,14 +117,44 @@ func cmdModset(args []string) {
 	}
 	e.computeModSets()
 	e.fixPureModsets()
+	why := ""
+	if len(args) > 1 && strings.HasPrefix(args[0], "why=") {
+		why = strings.TrimPrefix(args[0], "why=")
+		args = args[1:]
+	}
 	for _, k := range args {
 		fn := e.Fn(k)
 		if fn == nil {
 			fmt.Println("no such function", k)
 			continue
 		}
+		if why != "" {
+			seen := map[*ssa.Function]bool{}
+			var walk func(f *ssa.Function, d int)
+			walk = func(f *ssa.Function, d int) {
+				if seen[f] || d > 10 {
+					return
+				}
+				seen[f] = true
+				if m := e.modsets[f]; m == nil || !(m.Arrs[why] || m.All) {
+					return
+				}
+				fmt.Printf("%*s%s\n", d*2, "", f.String())
+				for _, b := range f.Blocks {
+					for _, ins := range b.Instrs {
+						if ci, ok := ins.(ssa.CallInstruction); ok {
+							if c := ci.Common().StaticCallee(); c != nil {
+								walk(c, d+1)
+							}
+						}
+					}
+				}
+			}
+			walk(fn, 0)
+			continue
+		}
 		ms := e.modsets[fn]
-		fmt.Printf("%s: all=%v alloc=%v arrs=%d\n", k, ms.All, ms.Alloc, len(ms.Arrs))
+		fmt.Printf("%s: all=%v alloc=%v arrs=%d %v\n", k, ms.All, ms.Alloc, len(ms.Arrs), sortedKeys(ms.Arrs))
 		if ms.All {
 			// explain: find a path to an All source
 			seen := map[*ssa.Function]bool{}
